@@ -6,6 +6,6 @@
    quantifiers, and both orders of the pair (swap is an action). *)
 EXTENDS BDDSpec
 N3 == <<"a", "b", "c">>
-RelActions == {"var", "apply", "drop", "swap", "preimage", "image"}
+RelActions == {"var", "build", "apply", "drop", "swap", "preimage", "image"}
 NoRequire == FALSE
 ====
